@@ -1325,6 +1325,7 @@ class XonshParser(Parser):
         self._reset(mark)
         return None
 
+    @memoize
     def pattern(self) -> Any | None:
         # pattern: as_pattern | or_pattern
         return self.seq_alts(
@@ -1359,6 +1360,7 @@ class XonshParser(Parser):
         self._reset(mark)
         return None
 
+    @memoize
     def closed_pattern(self) -> Any | None:
         # closed_pattern: literal_pattern | capture_pattern | wildcard_pattern | value_pattern | group_pattern | sequence_pattern | mapping_pattern | class_pattern
         return self.seq_alts(
